@@ -104,6 +104,20 @@ def level_hits(segs, q):
     return False
 
 
+def inflection_level(segs, q):
+    """the query level passes through a horizontal inflection of a cubic (a double root of y' in (0,1) with y equal to the level, 1e-9
+    relative): y(t) - level has a triple root, which exact and floating-point root finding resolve differently (one root or a cluster)"""
+    y = q[1]
+    for pts in segs:
+        if len(pts) < 4:
+            continue
+        roots, _d = oc.deriv_roots([p[1] for p in pts])
+        for r, simple in roots:
+            if not simple and 0 < r < 1 and abs(float(oc.bern([F(p[1]) for p in pts], r)) - y) <= 1e-9 * max(1.0, abs(y)):
+                return True
+    return False
+
+
 def inflection_cluster(path, segs, q):
     """K13 classifier: the query level passes through a horizontal inflection of a curved segment (y' has a double root r in (0,1) and
     y(r) is the level, 1e-9 relative) AND the library reports that one crossing more than once: two or more crossings of that segment
@@ -330,7 +344,7 @@ def model_corr(ctx):
         if rep.split() != ["ok"] + [str(v) for v in data]:
             path = cc.build(spec)
             ext = extent_of(path)
-            if dist_to_path(path, q) <= 1e-3 * ext + 0.3 or level_hits(seg_list(path), q):
+            if dist_to_path(path, q) <= 1e-3 * ext + 0.3 or level_hits(seg_list(path), q) or inflection_level(seg_list(path), q):
                 continue            # within float noise of the outline / of a window end: exact and float evaluation may differ
             dis.append({"kind": "model-vs-impl", "model": "winding", "spec": spec, "q": q, "which": which, "lean": rep[:100], "impl": list(data)})
     return {"model_compared": len(metas), "model_nonzero": nz, "tangent_taken_on": which}, dis
